@@ -380,7 +380,7 @@ fn converse(r: impl BufRead + Send + 'static, mut w: impl Write, s: &RealSession
     // wait until `done` says so, answering server requests on the way
     let mut pump = |w: &mut dyn Write, published: &mut u64, done: &mut dyn FnMut(&Value) -> bool, what: &str| -> Result<(), String> {
         loop {
-            let f = rx.recv_timeout(Duration::from_secs(20)).map_err(|_| format!("server-unresponsive: no reply within 20 s while waiting for {what}"))?;
+            let f = rx.recv_timeout(Duration::from_secs(90)).map_err(|_| format!("server-unresponsive: no reply within 90 s while waiting for {what}"))?;
             if f.get("method").is_some() {
                 if let Some(id) = f.get("id") {
                     let result = if f["method"] == "workspace/configuration" { json!([s.settings]) } else { Value::Null };
